@@ -62,6 +62,7 @@ CONSTANTS
   OrderedDeps = {ordered}
   RestoreRng = {restore}
   FullPairs = {full}
+  BlanketSkips = {skips}
   MaxPrior = {prior}
   R = {R}
 INVARIANT DTypeOK
@@ -77,6 +78,7 @@ CONSTANTS
   OrderedDeps = TRUE
   RestoreRng = "always"
   FullPairs = TRUE
+  BlanketSkips = FALSE
   MaxPrior = 0
   R = 2
 INVARIANT TraceTypeOK
@@ -141,12 +143,15 @@ def describe(prog, n):
     return k + "(" + ", ".join(describe(prog, a) for a in nd["a"]) + ")"
 
 
-def make_case(ast, max_iter, dynamic=False):
+def make_case(ast, max_iter, dynamic=False, modular=False):
     """(text, prog, info) from one AST; vnoise calls are internal RNG consumers: identity for
     the values (stripped for the spec's node DAG), counted per requirement as `ic`.
     dynamic: the object gets a behaviour; as soon as a module defines a behaviour every random
     value bound to a module-level name is a behaviour dependency (Scenario.__init__), appended
-    after the requirement dependencies in namespace order: broots."""
+    after the requirement dependencies in namespace order: broots.
+    modular: the program is the setup block of a modular scenario; a requirement there captures a
+    snapshot of ALL the locals of the block (DynamicScenario._makeLocalsSnapshot, built from a set
+    of names), so every random local not already sampled with an object is in the unordered group."""
     ast2, ics = [], []
     for s in ast:
         if s[0] == "require":
@@ -206,6 +211,14 @@ def make_case(ast, max_iter, dynamic=False):
         n = node_of[nm]
         if israndom(n) and n not in reach and n not in rroots:
             rroots.append(n)
+    if modular:
+        if any(st[0] == "param" for st in ast2) or not prog["reqs"]:
+            raise G.IllFormed("modular programs: object properties and requirements only")
+        rroots = []
+        for nm in names:
+            n = node_of[nm]
+            if israndom(n) and n not in reach and n not in rroots:
+                rroots.append(n)
     broots = []
     if dynamic:
         for nm in names:
@@ -232,6 +245,13 @@ def make_case(ast, max_iter, dynamic=False):
                 lines[li] = "ego = new Object at (0, 0), with foo " + ln[len("ego = new Object with foo "):] + ", with behavior Walker(2)"
         text = "\n".join(lines) + DYN_OTHER
         info["mode"] = "dynamic"
+    if modular:
+        head = G.PRELUDE + MYPRELUDE
+        body = text[len(head):]
+        text = head + "scenario Main():\n    setup:\n" + "".join("        " + ln + "\n" for ln in body.split("\n") if ln.strip())
+        info["mode"] = "modular"
+        info["group_kind"] = "random locals of the scenario's setup block"
+        info["depsets"] = [names + ["ego"]]  # _locals holds every local name of the block
     info["ast"] = repr(ast)
     info["nreq"] = len(prog["reqs"])
     info["nrr"] = len(rroots)
@@ -296,6 +316,13 @@ def family(tier="thorough"):
     for ti in ((0, 2, 4) if tier == "quick" else range(len(CLASS_TEMPLATES))):
         out.append(class_case(CLASS_TEMPLATES[ti], 2))
     out.append(class_case(CLASS_TEMPLATES[0], 2, soft=Fraction(1, 2)))
+    # one param statement with several random parameters (group at the front, nothing before it);
+    # setup block of a modular scenario (group = its random locals, after the object)
+    out.append(param_case(PARAM_TEMPLATES[0], 2))
+    out.append(param_case(PARAM_TEMPLATES[3], 2))
+    m = modular_cases()[2]
+    m[1]["maxIter"] = 2
+    out.append(m)
     return out
 
 
@@ -525,6 +552,96 @@ def geom_case(k):
     return GEOM_TEXT.format(**pars), None, info
 
 
+# ---- several independent random parameters defined by ONE param statement (their order in the
+# table of global parameters is the order of sampling), optionally with a world model that
+# defines parameters too (those the scenario already set are not overridden)
+PARAM_TEMPLATES = [
+    dict(names=["a", "b", "c"], exprs=[_D(0, 3), _D(10, 13), ("uniform", [L(20), L(22), L(25)])]),
+    dict(names=["weather", "friction", "gust", "timeOfDay"], exprs=[("uniform", [L(1), L(2), L(3)]), _D(10, 14), _D(20, 23), _D(30, 35)]),
+    dict(names=["x", "y"], exprs=[_D(0, 5), _D(10, 15)], model=dict(names=["mm", "x", "zz"], exprs=[_D(50, 53), L(7), _D(60, 63)])),
+    dict(names=["p1", "p2", "p3"], exprs=[V("shared"), _D(10, 13), _D(20, 24)], lets=[("shared", _D(0, 3))],
+         req=("cmp", "ge", V("shared"), L(2))),
+    dict(names=["speedLimit", "gap", "lane", "k"], exprs=[_D(0, 2), _D(10, 12), ("discrete", [(L(20), 1), (L(21), 3)]), _D(30, 31)]),
+    dict(names=["alpha", "beta"], exprs=[_D(0, 3), _D(10, 13)], extra=[("zeta", L(9))],
+         model=dict(names=["gamma", "delta"], exprs=[_D(50, 51), _D(60, 62)])),
+]
+
+
+def param_case(tpl, max_iter=20):
+    lets = [("let", nm, e) for nm, e in tpl.get("lets", [])]
+    pairs = list(zip(tpl["names"], tpl["exprs"])) + list(tpl.get("extra", []))
+    model = tpl.get("model")
+    mpairs = [(nm, e) for nm, e in zip(model["names"], model["exprs"]) if nm not in dict(pairs)] if model else []
+    ast = lets + [("param", nm, e) for nm, e in pairs + mpairs]
+    if tpl.get("req"):
+        ast.append(("require", None, tpl["req"]))
+    prog, info = G.to_prog(ast, max_iter)
+    nodes = prog["nodes"]
+    group = []
+    for n in prog["outs"]:
+        if nodes[n - 1]["k"] != "const" and n not in group:
+            group.append(n)
+    post = [n for n in prog["roots"] if n not in group]
+    prog["froots"], prog["rroots"], prog["broots"], prog["eroots"] = [], group, [], post
+    prog["pre"], prog["post"] = [], post
+    for r in prog["reqs"]:
+        r["ic"] = 0
+    text = G.PRELUDE + MYPRELUDE + "".join(f"{nm} = {G.expr_text(e)}\n" for nm, e in tpl.get("lets", []))
+    text += "param " + ", ".join(f"{nm} = {G.expr_text(e)}" for nm, e in zip(tpl["names"], tpl["exprs"])) + "\n"
+    for nm, e in tpl.get("extra", []):
+        text += f"param {nm} = {G.expr_text(e)}\n"
+    files = {}
+    if model:
+        text += "model c15model\n"
+        files["c15model.scenic"] = "param " + ", ".join(f"{nm} = {G.expr_text(e)}" for nm, e in zip(model["names"], model["exprs"])) + "\n"
+    if tpl.get("req"):
+        text += "require " + G.cond_text(tpl["req"]) + "\n"
+    depsets = [list(tpl["names"])] + ([list(model["names"])] if model else [])
+    info.update(ast=repr(ast), nreq=len(prog["reqs"]), nrr=len(group), noise=0, mode="param", files=files,
+                group_kind="random global parameters", depsets=[d for d in depsets if len(d) >= 2], accept_rate=None)
+    return text, prog, info
+
+
+def modular_cases():
+    """Setup blocks of modular scenarios with several independent random locals used only in
+    requirements (plus an unused one, a shared one feeding the object, noise, a soft requirement)."""
+    D = lambda a, b: ("drange", L(a), L(b))  # noqa: E731
+    asts = [
+        [("let", "alpha", D(0, 3)), ("let", "bravo", D(10, 13)), ("let", "charlie", D(20, 23)), ("let", "delta", D(30, 33)),
+         ("let", "s", D(0, 5)), ("object", V("s")),
+         ("require", None, ("cmp", "le", ("bin", "add", V("alpha"), L(10)), V("bravo"))),
+         ("require", None, ("cmp", "le", ("bin", "add", V("charlie"), L(10)), V("delta")))],
+        [("let", "a", D(0, 3)), ("let", "b", D(2, 5)), ("let", "c", ("uniform", [L(1), L(4), L(6)])), ("let", "unused", D(7, 9)),
+         ("object", D(0, 4)),
+         ("require", None, ("cmp", "lt", V("a"), V("b"))),
+         ("require", Fraction(1, 2), ("cmp", "ne", ("call", "vnoise", [V("c")], []), L(4)))],
+        [("let", "speedLimit", D(3, 6)), ("let", "gap", D(1, 4)), ("let", "lane", ("discrete", [(L(0), 1), (L(2), 2)])),
+         ("let", "shown", D(0, 3)), ("object", ("bin", "add", V("shown"), L(1))),
+         ("require", None, ("and", ("cmp", "ge", V("speedLimit"), V("gap")), ("cmp", "le", V("lane"), V("shown"))))],
+    ]
+    return [make_case(a, 20, modular=True) for a in asts]
+
+
+# ---- accept/reject must not depend on the order of the checks either: a small box around (and
+# possibly wholly inside) an L-shaped, hence non-convex, solid.  The optional blanket collision
+# check is surface-only; the pairwise intersection check decides.  6 scenes from one stream.
+ENGULF_TEXT = """import trimesh, shapely.geometry as sg
+outline = sg.Polygon([(-4, -4), (4, -4), (4, 0), (0, 0), (0, 4), (-4, 4)])
+solid = trimesh.creation.extrude_polygon(outline, 2)
+block = new Object at (0, 0, 0), with shape MeshShape(solid),
+    with width 8, with length 8, with height 2
+ego = new Object at (Range(-{r}, {r}), Range(-{r}, {r}), 0),
+    with width {w}, with length {w}, with height 0.5
+"""
+
+
+def engulf_case(k):
+    pars = [dict(r=3.5, w=0.5), dict(r=3.8, w=0.4), dict(r=3.2, w=0.6)][k % 3]
+    info = {"mode": "geom", "outnames": [], "nreq": 2, "nrr": 0, "noise": 0, "nscenes": 6, "max_iter": 1000,
+            "group_kind": "-", "nprims": 99, "branches": 10**9}
+    return ENGULF_TEXT.format(**pars), None, info
+
+
 def leak_probes():
     """Finite-discrete counterparts of the ring-arena program: ONE requirement that consumes a
     global generator and never rejects, ONE that consumes nothing and rejects about half of the
@@ -740,7 +857,7 @@ def plan_processes(items, nproc, rng_seed=0):
     for i, (_text, _prog, info) in enumerate(items):
         prng = random.Random(rng_seed * 1000003 + i)
         mode = info.get("mode", "static")
-        if mode == "class":
+        if mode in ("class", "param", "modular"):
             seeds, ndist = pick_hashseeds([tuple(ds) for ds in info["depsets"]], nproc + 1, orders)
             info["hash_orderings_covered"] = ndist
             plan.append(perturbations(prng, nproc + 1, i, hashseeds=seeds))
@@ -759,7 +876,7 @@ def run_processes(items, nproc, mutant=None, rng_seed=0, mode="static"):
             jobs.append({
                 "id": f"{i:04d}-{pi:02d}", "prog": i, "proc": pi, "text": text, "seed": 1000 + 17 * i + rng_seed,
                 "max_iter": info.get("max_iter") or prog["maxIter"], "outnames": info["outnames"], "mode": info.get("mode", mode),
-                "nscenes": info.get("nscenes", 1),
+                "nscenes": info.get("nscenes", 1), "files": info.get("files", {}),
                 "steps": info.get("steps", 4), "perturb": pert, "mutant": mutant, "timeout": 300,
             })
     with ThreadPoolExecutor(6) as ex:
@@ -953,7 +1070,7 @@ def judge(ck, items, per, joint, single, progress, mutant=None, stats=None):
         # those roots, and no single permutation explains them all.
         fstat["differing"] += 1
         by_group = traced and nrr >= 2 and all(explained) and not joint[i]
-        known = by_group and fam != "class"
+        known = by_group and fam in ("static", "dynamic")
         a, b = [g[0] for g in list(groups.values())[:2]]
         replay = {
             "property": "C15", "program": text, "seed": runs[0][0]["seed"], "max_iter": runs[0][0]["max_iter"],
@@ -1039,7 +1156,7 @@ def model_check(ck, progs, tier):
     path = write_progs(entries, "model-progs.json")
     env = {"PROGS": path, "PRINT_HIST": "0", "PRINT_PAIRS": "0"}
     # (A) ideal model: insertion ordered -> the property holds in every environment
-    res = run_tlc("Determinism", CFG.format(ordered="TRUE", restore='"always"', full=full, prior=2, R=R_, more=ALL_INVS), env=env,
+    res = run_tlc("Determinism", CFG.format(ordered="TRUE", restore='"always"', full=full, skips="FALSE", prior=2, R=R_, more=ALL_INVS), env=env,
                   coverage=True, timeout=2400, workers=W)
     ck.add_tlc("Determinism[OrderedDeps]", res)
     need = ["PriorScene", "Reseed", "DActivate", "DDraw", "Reused", "SaveRng", "CheckAny",
@@ -1052,7 +1169,7 @@ def model_check(ck, progs, tier):
     if tier == "quick":  # stops at the first counterexample: the small programs are enough
         bprogs = sorted(bprogs, key=lambda p: (len(p["rroots"]), len(p["nodes"])))[:12]
     bentries, bindex = expand_variants(bprogs)
-    res = run_tlc("Determinism", CFG.format(ordered="FALSE", restore='"always"', full=full, prior=2, R=R_, more="INVARIANT DeterministicScene\n"),
+    res = run_tlc("Determinism", CFG.format(ordered="FALSE", restore='"always"', full=full, skips="FALSE", prior=2, R=R_, more="INVARIANT DeterministicScene\n"),
                   env=dict(env, PROGS=write_progs(bentries, "model-setordered.json")), expect_fail=True, timeout=2400, workers=W)
     if res.invariant_violated != "DeterministicScene":
         raise MachineryError("the set-ordered model did not violate Deterministic: the spec cannot exhibit the "
@@ -1074,7 +1191,7 @@ def model_check(ck, progs, tier):
     if tier == "quick":  # the failing runs stop at the first counterexample: a few small programs are enough
         noisy = sorted(noisy, key=lambda p: (len(p["rroots"]), len(p["nodes"])))[:8]
     nentries, _ = expand_variants(noisy)
-    res = run_tlc("Determinism", CFG.format(ordered="TRUE", restore='"never"', full=full, prior=2, R=R_, more="INVARIANT DeterministicScene\n"),
+    res = run_tlc("Determinism", CFG.format(ordered="TRUE", restore='"never"', full=full, skips="FALSE", prior=2, R=R_, more="INVARIANT DeterministicScene\n"),
                   env=dict(env, PROGS=write_progs(nentries, "model-noisy.json")), expect_fail=True, timeout=2400, workers=W)
     if res.invariant_violated != "DeterministicScene":
         raise MachineryError(f"the model without RestoreRng did not fail (violated: {res.invariant_violated}; {res.error})")
@@ -1082,7 +1199,7 @@ def model_check(ck, progs, tier):
     ck.cov["no_restore_model"] = {"violated": res.invariant_violated}
     # (D) spec-level mutant: restored only when the sample is accepted -> the randomness a rejected
     # sample's checks consumed leaks, and how much depends on the checker's order: must fail too
-    res = run_tlc("Determinism", CFG.format(ordered="TRUE", restore='"accepted"', full=full, prior=2, R=R_, more="INVARIANT DeterministicScene\n"),
+    res = run_tlc("Determinism", CFG.format(ordered="TRUE", restore='"accepted"', full=full, skips="FALSE", prior=2, R=R_, more="INVARIANT DeterministicScene\n"),
                   env=dict(env, PROGS=write_progs(nentries, "model-noisy.json")), expect_fail=True, timeout=2400, workers=W)
     if res.invariant_violated != "DeterministicScene":
         raise MachineryError(f"the model restoring only accepted samples did not fail (violated: {res.invariant_violated}; {res.error})")
@@ -1091,6 +1208,20 @@ def model_check(ck, progs, tier):
     ck.cov["restore_accepted_only_model"] = {"violated": res.invariant_violated,
                                              "counterexample": ({"stream": cex[0]["stream"], "observable_copy1": cex[0]["obs1"],
                                                                  "observable_copy2": cex[0]["obs2"]} if cex else None)}
+    # (E) spec-level mutant: a passed requirement 1 makes the checker skip requirement 2 -> whether a
+    # sample is accepted depends on the order of the checks: must fail
+    two = sorted([p for p in progs if len(p["reqs"]) >= 2 and all(r["p"] == [1, 1] for r in p["reqs"][:2])],
+                 key=lambda p: (len(p["rroots"]), len(p["nodes"])))[: (8 if tier == "quick" else 40)]
+    tentries, _ = expand_variants(two)
+    res = run_tlc("Determinism", CFG.format(ordered="TRUE", restore='"always"', full=full, skips="TRUE", prior=2, R=R_, more="INVARIANT DeterministicScene\n"),
+                  env=dict(env, PROGS=write_progs(tentries, "model-two.json")), expect_fail=True, timeout=2400, workers=W)
+    if res.invariant_violated != "DeterministicScene":
+        raise MachineryError(f"the model skipping a requirement after another passed did not fail (violated: {res.invariant_violated}; {res.error})")
+    ck.add_tlc("Determinism[requirement 2 skipped once requirement 1 passed, expected to fail]", res)
+    cex = [o for o in res.outputs if o.get("t") == "cex"]
+    ck.cov["skip_after_pass_model"] = {"violated": res.invariant_violated,
+                                       "counterexample": ({"stream": cex[0]["stream"], "observable_copy1": cex[0]["obs1"],
+                                                           "observable_copy2": cex[0]["obs2"]} if cex else None)}
     ck.cov["model_programs"] = len(progs)
     ck.cov["model_program_variants"] = len(entries)
 
@@ -1101,8 +1232,10 @@ def main(tier, mutant=None, ck=None, items=None, nproc=None):
     ck = ck or Check("C15", tier, "model_checking")
     ck.cov["rule"] = (
         "a case is one generated program (finite-discrete programs with requirement-only values and requirements that "
-        "consume the global generators; classes whose property defaults need several random properties; a ring-arena "
-        "program whose containment check samples with NumPy) compiled and sampled in N fresh interpreters with the same "
+        "consume the global generators; classes whose property defaults need several random properties; several random "
+        "parameters in one param statement, with and without a world model; setup blocks of modular scenarios with several "
+        "random locals; a ring-arena program whose containment check samples with NumPy and a small box around/inside a "
+        "non-convex solid, both under opposite scripted timing profiles) compiled and sampled in N fresh interpreters with the same "
         "seeds and different perturbations (hash seed 0..7 and beyond, chosen per class program to order the property "
         "names differently; junk allocation before compilation; scripted asc/desc and jittering checker clock; 0-3 scenes "
         "before re-seeding; import order; reused process); non-trivial = at least two values in the unordered group, at "
@@ -1118,16 +1251,19 @@ def main(tier, mutant=None, ck=None, items=None, nproc=None):
     ]
     nproc = nproc or int(os.environ.get("C15_NPROC", 0)) or (5 if tier == "quick" else 8)
     if items is None:
-        nprog = int(os.environ.get("C15_NPROG", 0)) or (24 if tier == "quick" else 200)  # overrides: smoke tests only
-        ncls, ngeom = (6, 2) if tier == "quick" else (16, 4)
+        nprog = int(os.environ.get("C15_NPROG", 0)) or (23 if tier == "quick" else 200)  # overrides: smoke tests only
+        ncls, npar, ngeom, neng = (4, 4, 1, 1) if tier == "quick" else (16, 6, 4, 3)
         if nprog < 20:
-            ncls, ngeom = 3, 1
-        nt = len(CLASS_TEMPLATES)
-        cls = [class_case(CLASS_TEMPLATES[(seed() + j) % nt], 20, soft=(Fraction(1, 2) if j >= nt else None)) for j in range(ncls)]
-        geo = [geom_case(seed() + j) for j in range(ngeom)]
-        items, dropped = gen_programs(seed() * 104729 + 15, max(1, nprog - 3 - ncls - ngeom), 20)
+            ncls, npar, ngeom, neng = 2, 2, 1, 1
+        nt, npt = len(CLASS_TEMPLATES), len(PARAM_TEMPLATES)
+        cls = [class_case(CLASS_TEMPLATES[(2 * seed() + 2 * j + j // nt) % nt], 20, soft=(Fraction(1, 2) if j >= nt else None)) for j in range(ncls)]
+        par = [param_case(PARAM_TEMPLATES[(seed() + j) % npt]) for j in range(npar)]
+        mod = modular_cases()
+        geo = [geom_case(seed() + j) for j in range(ngeom)] + [engulf_case(seed() + j) for j in range(neng)]
+        fixed = len(geo) + 3 + len(cls) + len(par) + len(mod)
+        items, dropped = gen_programs(seed() * 104729 + 15, max(1, nprog - fixed), 20)
         # the slow (geometric) programs first, so that they overlap with the others
-        items = geo + [canary()] + leak_probes() + cls + items
+        items = geo + [canary()] + leak_probes() + cls + par + mod + items
         ck.cov["dropped_by_generator"] = dropped
 
     t0 = time.time()
@@ -1137,7 +1273,7 @@ def main(tier, mutant=None, ck=None, items=None, nproc=None):
         if own:
             fam = [p for _t, p, _i in family(tier)]
             small = [dict(p, maxIter=2) for _t, p, i in items
-                     if p is not None and i.get("mode") != "class" and i["nprims"] <= 4 and i["branches"] <= 300][: (3 if tier == "quick" else 60)]
+                     if p is not None and i.get("mode", "static") in ("static", "dynamic") and i["nprims"] <= 4 and i["branches"] <= 300][: (3 if tier == "quick" else 60)]
             model_check(ck, fam + small, tier)
         per = fut.result()
     ck.cov["processes_wall_s"] = round(time.time() - t0, 1)
